@@ -201,6 +201,8 @@ def compare_results(out, func, dtype, eager_val, chunk_val, plan_label, spec_mas
     if eres.shape != cres.shape:
         out.add(("shape", plan_label, *sigextra), f"chunked shape {cres.shape} != eager {eres.shape} [{plan_label}]")
         return False
+    if eres.dtype != cres.dtype and eres.size:
+        out.add(("dtype", plan_label.split(",")[0], *sigextra), f"func={func}: chunked dtype {cres.dtype} != eager dtype {eres.dtype} [{plan_label}] (input {dtype})")
     if spec_mask is not None and spec_mask.shape == eres.shape:
         ok = close(cres, eres, rtol, atol) | ~spec_mask
         good = bool(ok.all())
